@@ -17,7 +17,7 @@ LEVEL = "exploration"
 FREQ = c05.FREQ.copy()
 DIRS = np.arange(8) * 45.0 + 5.0
 F32_DERIVED = {"gamma": 2e-6, "alpha": 2e-6, "fp": 2e-6}  # float64 results computed from float32 peak frequencies
-NSPEC = 30
+NSPEC = 32
 QUICK_PAIR_OPS = ["hs", "tp", "dpm", "dspr", "gamma", "smooth(3,3)", "interp(freq)", "ptm1", "ptm3", "scale_by_hs", "split(f,d)", "stats(limits)"]
 
 
@@ -29,7 +29,7 @@ def menu():
     k = 0
     for (i1, j1, h1), (i2, j2, h2) in itertools.product([(1, 1, 40.0), (2, 6, 25.0), (3, 3, 60.0), (1, 7, 33.0), (4, 0, 18.0)],
                                                           [(4, 5, 10.0), (2, 2, 22.0), (3, 7, 5.0), (1, 4, 47.0), (4, 2, 31.0), (2, 0, 14.0)]):
-        if k >= NSPEC - 4:
+        if k >= NSPEC - 6:
             break
         d1 = np.minimum((j - j1) % nd, (j1 - j) % nd)
         d2 = np.minimum((j - j2) % nd, (j2 - j) % nd)
@@ -42,8 +42,10 @@ def menu():
     v = np.zeros((nf, nd))
     v[2, 3] = 9.0
     out.append(v)                                                         # single bin
+    out.append(out[0] * 1e-9)                                             # millimetre-calm spectrum next to storms
+    out.append(out[5] * 1e5)                                              # and an enormous one
     arr = np.array(out)
-    assert len({a.tobytes() for a in arr}) == len(arr)
+    assert len({a.tobytes() for a in arr}) == len(arr) == NSPEC
     return arr
 
 
@@ -89,17 +91,22 @@ def build(dims, sizes, idx, wind=True, order=None):
         # positions share wind speed/direction (pairwise) but differ in depth, or share depth but differ in wind
         aux["wspd"] = xr.DataArray((12.0 + 6.0 * (flat // 2 % 2)).reshape(sizes), dims=list(dims), coords=pc)
         aux["wdir"] = xr.DataArray((40.0 + 0.0 * flat).reshape(sizes), dims=list(dims), coords=pc)
-        aux["dpt"] = xr.DataArray(np.array([4.0, 60.0, 9.0, 9.0, 300.0, 4.0])[(flat.astype(int)) % 6].reshape(sizes), dims=list(dims), coords=pc)
+        aux["dpt"] = xr.DataArray(np.array([4.0, 4000.0, 9.0, 9.0, 300.0, 4.0])[(flat.astype(int)) % 6].reshape(sizes), dims=list(dims), coords=pc)
     else:
         aux["wspd"] = xr.DataArray((4.0 + 3.7 * flat).reshape(sizes), dims=list(dims), coords=pc)
         aux["wdir"] = xr.DataArray(((37.0 * flat) % 360).reshape(sizes), dims=list(dims), coords=pc)
-        aux["dpt"] = xr.DataArray((8.0 + 11.0 * flat).reshape(sizes), dims=list(dims), coords=pc)
+        aux["dpt"] = xr.DataArray(np.where(flat.astype(int) % 3 == 1, 2500.0 + 100.0 * flat, 8.0 + 11.0 * flat).reshape(sizes), dims=list(dims), coords=pc)
     return da, aux
 
 
 def ops_table():
     ops = c05.operations(DIRS)
     ops = {k: v for k, v in ops.items() if k != "hmax"}
+    # depth-dependent statistics with the per-position depth field (not a scalar)
+    ops["mss(depth=field)"] = (lambda da, aux: da.spec.mss(depth=aux["dpt"]), "stat")
+    ops["uss(depth=field)"] = (lambda da, aux: da.spec.uss(depth=aux["dpt"]), "stat")
+    ops["celerity(depth=field)"] = (lambda da, aux: da.spec.celerity(depth=aux["dpt"]), "stat")
+    ops["wavelen(depth=field)"] = (lambda da, aux: da.spec.wavelen(depth=aux["dpt"]), "stat")
     return ops
 
 
@@ -186,7 +193,7 @@ def run_layout(it):
     # wind-dependent partitions again with wind/depth fields in which positions share some of the values
     if npos > 1 and "part" not in dims:
         das, auxs_all = build(dims, sizes, idx, wind="shared")
-        for name in ("ptm1", "ptm2", "ptm4"):
+        for name in ("ptm1", "ptm2", "ptm4", "mss(depth=field)", "celerity(depth=field)"):
             fn = ops[name][0]
             full = c05.run_op(fn, das, auxs_all)
             res["evals"] += 1
